@@ -129,6 +129,9 @@ type Frame struct {
 	calleeBindings []string
 	fromDefer      bool // this (inlined) activation was started by RunDefers
 	runningDefers  bool // RunDefers of this activation is being executed
+	// outerVars: variables of enclosing functions that this (separately verified) closure does
+	// not capture, as arbitrary values (contracts may mention them)
+	outerVars map[string]sval
 	lastLockReach string
 	csCount   map[string]int
 	noopFuncs map[string]bool
